@@ -77,6 +77,49 @@ def models():
     return _models
 
 
+_results = {}
+
+
+def results():
+    """modelfit results stored with each model: objective value, estimates, and a log of 12 / 3 / 0 messages (more than ten,
+    so that positions have two digits)"""
+    if _results:
+        return _results
+    import pandas as pd
+    from pharmpy.workflows import Log, ModelfitResults
+
+    M = models()
+    for k, (mid, nmsg) in enumerate((("m1", 12), ("m2", 3), ("m3", 0))):
+        log = Log()
+        for i in range(nmsg):
+            log = log.log_warning(f"message {i}: a,b \"q\"") if i % 3 else log.log_error(f"message {i}")
+        pe = pd.Series({p.name: float(p.init) * (1.0 + 0.01 * (k + 1)) for p in M[mid].parameters}, name="estimates")
+        _results[mid] = ModelfitResults(ofv=100.5 + k, parameter_estimates=pe, minimization_successful=True, log=log)
+    return _results
+
+
+def equivalent_results(me, mid):
+    """differences between the results retrieved with an entry and the stored ones"""
+    want = results()[mid]
+    got = me.modelfit_results
+    if got is None:
+        return ["modelfit results missing"]
+    out = []
+    if got.ofv != want.ofv:
+        out.append(f"results: ofv {got.ofv} != {want.ofv}")
+    try:
+        if list(got.parameter_estimates.index) != list(want.parameter_estimates.index) or \
+                any(abs(a - b) > 1e-12 * max(1.0, abs(b)) for a, b in zip(got.parameter_estimates, want.parameter_estimates)):
+            out.append("results: parameter estimates differ")
+    except Exception as e:
+        out.append(f"results: parameter estimates unreadable ({type(e).__name__})")
+    gl = [(e.category, e.message) for e in (got.log or ())]
+    wl = [(e.category, e.message) for e in want.log]
+    if gl != wl:
+        out.append(f"results: log messages {[m for _, m in gl][:13]} are not the stored ones in order {[m for _, m in wl][:13]}")
+    return out
+
+
 def equivalent(got, want, name, description):
     """list of differences between a retrieved model and the stored one"""
     import numpy as np
@@ -121,15 +164,15 @@ def run_op(ctx, op, ref):
             m = M[mid].replace(name=name, description=desc)
         except ValueError as e:
             raise Inadmissible(str(e))
-        ctx.store_model_entry(ModelEntry.create(model=m))
+        ctx.store_model_entry(ModelEntry.create(model=m, modelfit_results=results()[mid]))
         ref["names"][name] = (mid, desc)
     elif k == "final":
         m = M[op[1]]
-        ctx.store_final_model_entry(ModelEntry.create(model=m))
+        ctx.store_final_model_entry(ModelEntry.create(model=m, modelfit_results=results()[op[1]]))
         ref["names"]["final"] = (op[1], m.description)
     elif k == "input":
         m = M[op[1]]
-        ctx.store_input_model_entry(ModelEntry.create(model=m))
+        ctx.store_input_model_entry(ModelEntry.create(model=m, modelfit_results=results()[op[1]]))
         ref["names"]["input"] = (op[1], m.description)
     elif k == "log":
         getattr(ctx, "log_" + op[1])(op[2])
@@ -161,7 +204,7 @@ def check_names(ctx, ref, must, fails, tag):
             continue
         n += 1
         want_name = {"final": "final", "input": "input"}.get(name, name)
-        diffs = equivalent(me.model, M[mid], want_name, desc)
+        diffs = equivalent(me.model, M[mid], want_name, desc) + equivalent_results(me, mid)
         if diffs:
             kind = "committed" if name in must else "uncommitted (store in flight at the crash)"
             fails.append(f"{tag}: {kind} entry {name!r} retrieved but not equivalent to what was stored: {'; '.join(diffs)}")
